@@ -470,11 +470,12 @@ def _run(rep, ctx):
     with rep.guard("R15.4"):
         from .. import symrules as _SR
         _SR.reset_covers_caches(rep, ctx.model, "R15.4")
-    rep.rule("R15.5", "spglib is given the analysed structure unmodified with the analyzer's tolerance, and its standardised lattice / positions / types are used without a change of convention (shared with C05)")
+    rep.rule("R15.5", "spglib is given the analysed structure unmodified: cell, scaled positions and numbers of one object (a cell changed without its "
+                      "coordinates makes the detected group, and with it the flag, depend on the basis the crystal is supplied in; shared with C05)")
     with rep.guard("R15.5"):
         from . import shared as _shb
-        _shb.spglib_boundary(rep, ctx.model, "R15.5", back=False)
-    rep.floor("R15.5", 4)
+        _shb.spglib_boundary(rep, ctx.model, "R15.5", back=False, tolerance=False)
+    rep.floor("R15.5", 2)
     rep.floor("R15.1", 1)
     rep.floor("R15.2", 2)
     rep.floor("R15.3", 2)
